@@ -21,17 +21,17 @@ type Violation struct {
 
 // Shard is the document a shard process writes.
 type Shard struct {
-	Property    string         `json:"property"`
-	Evaluations int            `json:"evaluations"`
-	Nontrivial  []uint64       `json:"nontrivial_hashes"`
-	Classes     map[string]int `json:"classes"`
-	Samples     []any          `json:"samples"`
-	Known       map[string]int `json:"known_findings"` // finding id -> hits
-	Foreign     map[string]int `json:"foreign"`        // discrepancies that contradict another property
-	Notes       map[string]int `json:"notes"`
-	Violations  []Violation    `json:"violations"`
-	Exhaustive  bool           `json:"exhaustive"`
-	Inconclusive string        `json:"inconclusive,omitempty"`
+	Property     string         `json:"property"`
+	Evaluations  int            `json:"evaluations"`
+	Nontrivial   []uint64       `json:"nontrivial_hashes"`
+	Classes      map[string]int `json:"classes"`
+	Samples      []any          `json:"samples"`
+	Known        map[string]int `json:"known_findings"` // finding id -> hits
+	Foreign      map[string]int `json:"foreign"`        // discrepancies that contradict another property
+	Notes        map[string]int `json:"notes"`
+	Violations   []Violation    `json:"violations"`
+	Exhaustive   bool           `json:"exhaustive"`
+	Inconclusive string         `json:"inconclusive,omitempty"`
 }
 
 // Collector is safe for concurrent use.
